@@ -236,3 +236,11 @@ theorem psdCholFactor_injective_mod_scale (isReal : Bool) (θ θ' : Nat → ℝ)
       have e : rank + M + (p - rank - M) = p := by omega
       rw [e] at this
       exact div_inj _ _ _ (hpos (2 * M) θ) (ofReal_add_I_inj this).2
+
+/-- `psdNormaliser` is the normaliser inside the model's `psdCholFactor`: its diagonal entries are `softplus θ_c / psdNormaliser θ` -/
+theorem psdCholFactor_diag (isReal : Bool) (θ : Nat → ℝ) (c : Nat) (hc : c < rank) (hrk : rank ≤ dim) :
+    (psdCholFactor (K := ℂ) dim rank isReal θ).get c c = ((softplus (θ c) / psdNormaliser dim rank isReal θ : ℝ) : ℂ) := by
+  cases isReal <;>
+  simp only [psdCholFactor, psdNormaliser, NMat.get_ofFn _ _ _ (lt_of_lt_of_le hc hrk) hc, if_true, CxOps.ofReal, sqrt_eq, Bool.false_eq_true, if_false]
+
+end Numqi.Manifold
